@@ -213,6 +213,24 @@ def run(F, R, tier):
         R.ob("C02-e", "a module is left out of a types-only walk only if its types dependency resolved, or it is unchecked JS", sub or unchk,
              "a module can be skipped although its types dependency failed to resolve: that failure is never reported", where(c_))
 
+    # the dynamic-import leniency (a missing module is tolerated when dynamic edges are not
+    # followed) applies to dynamic dependencies only: check_resolution is told `dep.is_dynamic`
+    # for dependencies and `false` for a module's own types dependency
+    crs = [n for n in en["_nodes"] if callee_matches(n, ["ModuleGraphErrorIterator::check_resolution"])]
+    R.floor("C02-e check_resolution calls in the error listing", len(crs), 3)
+    for c in crs:
+        a = call_args(c)
+        dyn = peel_value(a[-1])
+        dep_arg = [peel_value(x) for x in a[1:-1]]
+        from_dep = any(x.get("k") == "Field" and tyc(F, x.get("e"), "graph::Dependency") and not tyc(F, x.get("e"), "TypesDependency") for x in dep_arg)
+        if from_dep:
+            ok = dyn.get("k") == "Field" and dyn["field"] == "is_dynamic" and dyn.get("adt") == "graph::Dependency"
+            what = "a dependency's resolution is checked with that dependency's own is_dynamic"
+        else:
+            ok = dyn.get("k") == "Lit" and dyn.get("v") is False
+            what = "a module's types dependency is never treated as a dynamic import"
+        R.ob("C02-e", what, ok, "check_resolution(.., %s): the missing-dynamic-import leniency would be applied to (or withheld from) the wrong edges, so a reachable failure is skipped or an unfollowed one reported" % expr_text(a[-1]), where(c))
+
     # ---------------- C02-w ------------------------------------------------
     # the error listing can only report what the walk yields: a specifier that
     # is marked seen without being queued is skipped with everything below it
